@@ -133,6 +133,36 @@ def escape_table():
     return rows
 
 
+def signal_tables():
+    """unix.rs: which signal each termination / job-control request becomes."""
+    src = strip_comments(read("nextest-runner/src/runner/unix.rs"))
+    sigmap = dict(re.findall(r"UnitTerminateSignal::(\w+) => (SIG\w+),", re.search(r"fn signal\(self\) -> libc::c_int \{(.*?)\n    \}", src, re.S).group(1)))
+    if set(sigmap) != {"Interrupt", "Term", "Hangup", "Quit", "Kill"}: raise RuntimeError(f"UnitTerminateSignal::signal: unexpected arms {sigmap}")
+    m = re.search(r"fn shutdown_terminate_method\(.*?\) -> UnitTerminateMethod \{(.*?)\n\}", src, re.S)
+    if not m: raise RuntimeError("shutdown_terminate_method not found")
+    body = re.sub(r"\s+", " ", m.group(1))
+    z = re.search(r"if grace_period\.is_zero\(\) \{ return UnitTerminateMethod::Signal\(UnitTerminateSignal::(\w+)\); \}", body)
+    if not z: raise RuntimeError("shutdown_terminate_method: zero-grace arm not found")
+    shut = [("ZeroGrace", sigmap[z.group(1)])]
+    for ev, sig in re.findall(r"ShutdownRequest::Once\(ShutdownEvent::(\w+)\) => \{ UnitTerminateMethod::Signal\(UnitTerminateSignal::(\w+)\) \}", body):
+        shut.append((ev, sigmap[sig]))
+    tw = re.search(r"ShutdownRequest::Twice => UnitTerminateMethod::Signal\(UnitTerminateSignal::(\w+)\)", body)
+    if not tw or len(shut) != 5: raise RuntimeError(f"shutdown_terminate_method: unexpected arms {shut}")
+    shut.append(("Twice", sigmap[tw.group(1)]))
+    m = re.search(r"fn timeout_terminate_method\(.*?\) -> UnitTerminateMethod \{(.*?)\n\}", src, re.S)
+    body = re.sub(r"\s+", " ", m.group(1))
+    t = re.search(r"if grace_period\.is_zero\(\) \{ UnitTerminateMethod::Signal\(UnitTerminateSignal::(\w+)\) \} else \{ UnitTerminateMethod::Signal\(UnitTerminateSignal::(\w+)\) \}", body)
+    if not t: raise RuntimeError("timeout_terminate_method: unexpected shape")
+    timeout = [("ZeroGrace", sigmap[t.group(1)]), ("Otherwise", sigmap[t.group(2)])]
+    m = re.search(r"fn job_control_child\(.*?\{(.*?)\n\}", src, re.S)
+    jc = re.findall(r"JobControlEvent::(\w+) => (SIG\w+),", m.group(1))
+    if sorted(jc) != [("Continue", "SIGCONT"), ("Stop", "SIGTSTP")] and dict(jc).keys() != {"Stop", "Continue"}: raise RuntimeError(f"job_control_child: unexpected arms {jc}")
+    # the group is addressed: kill(-pid, ...)
+    n_group = len(re.findall(r"libc::kill\(-pid(?:_i32)?,", src))
+    n_any = len(re.findall(r"libc::kill\(", src))
+    return shut, timeout, jc, (n_group, n_any)
+
+
 def run(tables=None):
     codes = exit_codes()
     ee = expected_error_codes()
@@ -141,6 +171,7 @@ def run(tables=None):
     mismatch = enum_variants(read("nextest-metadata/src/test_list.rs"), "MismatchReason")
     preds = parse_set_def_table()
     esc = escape_table()
+    shut, timeout_t, jc, (n_group, n_any) = signal_tables()
     def code_of(outcome):
         return 0 if outcome == "0" else int(codes[ee[outcome]])
     lines = [
@@ -165,6 +196,18 @@ def run(tables=None):
         "",
         "/-- `parse_escaped_char`'s single-character escapes: (character after the backslash, resulting code point) -/",
         "def escapeTable : List (Nat × Nat) := [" + ", ".join(f"({a}, {b})" for a, b in esc) + "]",
+        "",
+        "/-- `shutdown_terminate_method` composed with `UnitTerminateSignal::signal`: request ↦ signal -/",
+        "def shutdownSignalTable : List (String × String) := [" + ", ".join(f'("{a}", "{b}")' for a, b in shut) + "]",
+        "",
+        "/-- `timeout_terminate_method` -/",
+        "def timeoutSignalTable : List (String × String) := [" + ", ".join(f'("{a}", "{b}")' for a, b in timeout_t) + "]",
+        "",
+        "/-- `job_control_child` -/",
+        "def jobControlTable : List (String × String) := [" + ", ".join(f'("{a}", "{b}")' for a, b in jc) + "]",
+        "",
+        "/-- `libc::kill` call sites in unix.rs: (addressed to the process group `-pid`, all) -/",
+        f"def killSites : Nat × Nat := ({n_group}, {n_any})",
         "",
         "end NextestModel.Gen",
         "",
